@@ -29,7 +29,7 @@ def gen_cases(tier, seed):
     cases = []
     for cap in (1, 2, 3, 4, 6):
         for wa in (True, False):
-            for kind in ('normal', 'vertical', 'slow'):
+            for kind in ('normal', 'vertical', 'slow') + (('deadband', 'dupstamps') if cap in (2, 3) or tier == 'thorough' else ()):
                 # quick: d <= 2 everywhere, d <= 3 where every call crosses or meets the capacity (cap 2);
                 # thorough: d <= 4 everywhere, d <= 5 for capacity 2
                 d_here = dev + 1 if cap == 2 else dev
